@@ -46,12 +46,12 @@ Theorem skip_c18_survivors : forall ops1 s,
     forall rc ops2, no_iter_ops_k ops2 = true -> ks_lockstep rc s C0 (spec_of (kabs s C0)) ops2.
 Proof.
   intros ops1 s E IT AL. assert (T : KTop s) by (eapply ktop_after; eauto; apply ktop_create).
-  destruct T as [D|[C0 [Zs [cnt [K [CNT [ND US]]]]]]]. congruence.
+  destruct T as [D|[C0 [Zs [cnt [zk [K [CNT [ND US]]]]]]]]. congruence.
   assert (C0' : forall id, cnt id = 0) by (intros; rewrite CNT, IT; reflexivity).
-  generalize (ki_good _ _ _ _ K). intro G. exists C0. split; [|split].
+  generalize (ki_good _ _ _ _ _ K). intro G. exists C0. split; [|split].
   - unfold live_kv. rewrite live_kabs. reflexivity.
   - eapply skip_traversal_ascending_g; eauto.
-  - intros rc ops2 NI. apply (skip_c17_from_g (RPP cnt) (ZPP cnt) Zs (rpp_pos cnt) rc ops2 s C0); auto.
+  - intros rc ops2 NI. apply (skip_c17_from_g (RPP cnt) (ZPP cnt zk) Zs (rpp_pos cnt) rc ops2 s C0); auto.
     + intros id r. unfold RPP. rewrite C0'. tauto.
     + eapply inv17_kabs; eauto.
 Qed.
@@ -61,13 +61,13 @@ Theorem skip_c18_survivors_invariant : forall ops1 s,
   k_state_after kv_fixed k_create ops1 = Ok s -> k_iters s = [] -> k_alive s = true -> exists C0, SGood17 s C0.
 Proof.
   intros ops1 s E IT AL. assert (T : KTop s) by (eapply ktop_after; eauto; apply ktop_create).
-  destruct T as [D|[C0 [Zs [cnt [K [CNT [ND US]]]]]]]. congruence.
+  destruct T as [D|[C0 [Zs [cnt [zk [K [CNT [ND US]]]]]]]]. congruence.
   assert (C0' : forall id, cnt id = 0) by (intros; rewrite CNT, IT; reflexivity).
-  generalize (ki_good _ _ _ _ K). intro G. exists C0.
+  generalize (ki_good _ _ _ _ _ K). intro G. exists C0.
   assert (ZE : Zs = []).
   { destruct Zs as [|z Zs]; auto. destruct (sg_z _ _ _ _ _ G z (or_introl eq_refl)) as [[m [_ [_ [_ [_ Q]]]]] _]. rewrite C0' in Q. lia. }
   subst Zs. unfold SGood17.
-  eapply (sgood_transfer (RPP cnt) RP1 (ZPP cnt) ZPT [] [] s s); eauto.
+  eapply (sgood_transfer (RPP cnt) RP1 (ZPP cnt zk) ZPT [] [] s s); eauto.
   - intros id r _. unfold RPP, RP1. rewrite C0'. auto.
   - intros z m [].
 Qed.
